@@ -449,6 +449,18 @@ def run_segment(case, seg_steps, model, root, magick):
                                                 "maxdiff": float(np.max(np.abs(got.img - want))) if got.img.shape == want.shape else "shape"}})
                     else:
                         cnt("probe:optical-verified")
+                        if op.get("chain"):
+                            # second hop: the image as read (float data of 8/16-bit origin) is written and read again
+                            p2 = os.path.join(os.path.dirname(path), "hop2-" + os.path.basename(path))
+                            with _quiet():
+                                got.write(p2)
+                                got2 = darsia.imread(p2)
+                            if got2.img.shape != got.img.shape or not np.array_equal(got2.img, got.img):
+                                viol.append({"oracle": "C18.O", "culprit": "optical-colours-differ-after-second-write", "step": idx,
+                                             "detail": {"op": op, "image": spec,
+                                                        "maxdiff": float(np.max(np.abs(got2.img - got.img))) if got2.img.shape == got.img.shape else "shape"}})
+                            else:
+                                cnt("probe:optical-second-hop-verified")
                     if magick == "present" and got.date is not None:
                         cnt("probe:date-from-imagemagick")
                 elif k == "corr_save":
@@ -654,7 +666,7 @@ class C18Engine(Engine):
         wl = substream(seed, "workload")
         fl = substream(seed, "faults")
         images = {f"im{i}": self._image_spec(wl) for i in range(cfg.randint(2, 4))}
-        corrs = {f"co{i}": self._corr_spec(wl) for i in range(cfg.randint(0, 2))}
+        corrs = {f"co{i}": self._corr_spec(wl) for i in range(cfg.choice([0, 1, 2, 2]))}
         paths = ["a.npz", "b", "sub/c.npz", "sub/deep/d", "e.v1.npz"][: cfg.randint(2, 5)]
         cpaths = ["k0.npz", "corr/k1.npz"]
         prog = []
@@ -682,14 +694,22 @@ class C18Engine(Engine):
                 images[name] = {"cls": "OpticalImage", "shape": [wl.randint(1, 6), wl.randint(1, 6)], "chan": [3], "dtype": dt,
                                 "color_space": wl.choice(["RGB", "RGB", "BGR"]), "time": wl.choice(["none", "date"]), "t0": 0,
                                 "dims": [1.0, 2.0], "id": wl.randint(0, 9999)}
-                prog.append({"op": "optical", "img": name, "path": wl.choice(["o/p", "q"]) + (".png" if dt == "uint8" and wl.random() < 0.6 else ".tif")})
+                prog.append({"op": "optical", "img": name, "path": wl.choice(["o/p", "q"]) + (".png" if dt == "uint8" and wl.random() < 0.6 else ".tif"),
+                             "chain": wl.random() < 0.5})
             elif kind == "corr_save":
                 p = wl.choice(cpaths)
                 prog.append({"op": "corr_save", "corr": wl.choice(sorted(corrs)), "path": p, "use_first": wl.random() < 0.5})
                 csaved.append(p)
             else:
                 prog.append({"op": "corr_read", "path": wl.choice(csaved) if csaved else cpaths[0]})
-        restarts = sorted(set(cfg.sample(range(1, len(prog)), k=min(cfg.choice([0, 1, 1, 2]), max(0, len(prog) - 1))))) if len(prog) > 1 else []
+        if len(corrs) >= 2 and cfg.random() < 0.5:
+            # the same file name re-used for another correction within one process
+            a, b = sorted(corrs)[:2]
+            p = wl.choice(cpaths)
+            at = wl.randint(0, len(prog))
+            prog[at:at] = [{"op": "corr_save", "corr": a, "path": p, "use_first": wl.random() < 0.5}, {"op": "corr_read", "path": p},
+                           {"op": "corr_save", "corr": b, "path": p, "use_first": wl.random() < 0.5}, {"op": "corr_read", "path": p}]
+        restarts = sorted(set(cfg.sample(range(1, len(prog)), k=min(cfg.choice([0, 0, 1, 1, 2]), max(0, len(prog) - 1))))) if len(prog) > 1 else []
         faults = []
         if cfg.random() < 0.45:
             for _ in range(fl.randint(1, 3)):
